@@ -26,6 +26,23 @@ fn scenario(ctx: &Ctx, i: u64) -> (Logical, bool) {
         l.class = String::from("tile data > 2^24 bytes");
         return (l, asyncm);
     }
+    if i % 24 == 13 {
+        // uncompressed tiles full of zero bytes: long zero runs in the middle and at the very END of the tile data
+        // (writers that skip over zero runs / create sparse files)
+        let mut l = gen::gen_logical(&mut rng, SizeClass::One, codec);
+        l.tiles.clear();
+        l.tile_compression = 1;
+        let mut mid = rng.bytes(300);
+        mid.extend(vec![0u8; 9000]);
+        mid.extend(rng.bytes(20));
+        l.tiles.insert(7, std::rc::Rc::new(rng.bytes(100)));
+        l.tiles.insert(8, std::rc::Rc::new(mid));
+        let mut tail = rng.bytes(rng.clone().usize(1, 50));
+        tail.extend(vec![0u8; *rng.pick(&[4096usize, 8192, 70_000])]);
+        l.tiles.insert(20, std::rc::Rc::new(tail));
+        l.class = String::from("zero runs in and at the end of the tile data");
+        return (l, asyncm);
+    }
     let l = match (i / 8) % 6 {
         0 => gen::gen_logical(&mut rng, SizeClass::Empty, codec),
         1 => gen::gen_logical(&mut rng, SizeClass::One, codec),
@@ -45,20 +62,54 @@ pub fn run(ctx: &mut Ctx) {
         ctx.begin(i);
         let (l, asyncm) = scenario(ctx, i);
         let api = if asyncm { "PMTiles::to_async_writer" } else { "PMTiles::to_writer" };
-        let mat = json!({"archive": l.describe(), "writer": api});
+        // 0: built with add_tile; 1: an existing archive opened and written again unchanged; 2: opened, metadata
+        // edited and one tile added, written again
+        let mode = match i % 12 {
+            7 => 1,
+            10 => 2,
+            _ => 0,
+        };
+        let written = ["built with add_tile", "opened from an archive, unchanged", "opened from an archive, then edited"][mode];
+        let mat = json!({"archive": l.describe(), "writer": api, "object_written": written});
+        let source: Vec<u8> = if mode > 0 { crate::checks::common::write_sync(l.build()).unwrap_or_default() } else { Vec::new() };
+        if mode > 0 {
+            ctx.count("scenarios_rewriting_an_opened_archive");
+        }
         // record the write
         let (res, log, image) = if asyncm {
             let mut s = AInst::recording(Vec::new());
             s.c.keep_data = true;
             s.pend = Pend::Random(ctx.rng("c17.pend", i), 1, 4);
-            let pm = l.build_async();
-            let r = guard(|| block_on(pm.to_async_writer(&mut s)));
+            let r = guard(|| {
+                block_on(async {
+                    if mode == 0 {
+                        l.build_async().to_async_writer(&mut s).await
+                    } else {
+                        let mut pm = PMTiles::from_async_reader(futures::io::Cursor::new(source.clone())).await?;
+                        if mode == 2 {
+                            pm.meta_data.insert(String::from("edited"), serde_json::Value::Bool(true));
+                            pm.add_tile(u64::from(u32::MAX) + 77, vec![1u8, 2, 3])?;
+                        }
+                        pm.to_async_writer(&mut s).await
+                    }
+                })
+            });
             (r, s.c.log, s.c.data)
         } else {
             let mut s = Inst::recording(Vec::new());
             s.c.keep_data = true;
-            let pm = l.build();
-            let r = guard(|| pm.to_writer(&mut s));
+            let r = guard(|| {
+                if mode == 0 {
+                    l.build().to_writer(&mut s)
+                } else {
+                    let mut pm = PMTiles::from_bytes(source.clone())?;
+                    if mode == 2 {
+                        pm.meta_data.insert(String::from("edited"), serde_json::Value::Bool(true));
+                        pm.add_tile(u64::from(u32::MAX) + 77, vec![1u8, 2, 3])?;
+                    }
+                    pm.to_writer(&mut s)
+                }
+            });
             (r, s.c.log, s.c.data)
         };
         match res {
@@ -127,7 +178,7 @@ pub fn run(ctx: &mut Ctx) {
                 }
             }
         }
-        ctx.case(hash_u64s(&[l.fingerprint(), u64::from(asyncm)]), nops >= 4);
+        ctx.case(hash_u64s(&[l.fingerprint(), u64::from(asyncm), mode as u64]), nops >= 4);
         ctx.max("operations_in_one_write", nops as u64);
         ctx.add("opens_that_succeeded", oks);
         if spill {
